@@ -2,6 +2,7 @@ package main
 
 import (
 	"go/token"
+	"go/types"
 	"sort"
 	"strings"
 
@@ -206,4 +207,210 @@ func ruleC12(c *Ctx, r *Result) {
 		r.Check(viaTest && okCreate, "C12.4", c.Name(w2g)+"#addObject-behind-fit-test", c.InstrPos(in), "addObject is preceded by hasSpace(n) or createNewHeap(n) with the same n on every path")
 	}
 	r.Floor("C12.4", 1)
+}
+
+// ---- C12.5: exact-fit acceptance in the reader ----
+//
+// A test `E < len(X)` whose true edge guards reads X[..:h] with h == E (and nothing that needs more than E bytes) rejects
+// the case in which the record ends exactly at the end of X; the weakest sufficient guard is E <= len(X). The writer fills
+// collections to the last byte, so the reader must accept the exact fit.
+type strictFit struct {
+	Fn    *ssa.Function
+	Guard *ssa.If
+	E     string
+	Pos   string
+}
+
+func (c *Ctx) strictFitGuards(fn *ssa.Function) (found []strictFit, examined int) {
+	fb := c.FB(fn)
+	for _, b := range fn.Blocks {
+		ifi, ok := b.Instrs[len(b.Instrs)-1].(*ssa.If)
+		if !ok {
+			continue
+		}
+		cmp, ok := ifi.Cond.(*ssa.BinOp)
+		if !ok {
+			continue
+		}
+		// E < len(X)  (true edge)   or   len(X) > E
+		var E ssa.Value
+		var lenCall ssa.Value
+		switch cmp.Op {
+		case token.LSS:
+			E, lenCall = cmp.X, cmp.Y
+		case token.GTR:
+			E, lenCall = cmp.Y, cmp.X
+		default:
+			continue
+		}
+		X := lenOperand(lenCall)
+		if X == nil {
+			continue
+		}
+		if _, isBytes := X.Type().Underlying().(*types.Slice); !isBytes {
+			continue
+		}
+		eLin := fb.lin(E)
+		if eLin.isConst() {
+			continue
+		}
+		arm := b.Succs[0]
+		// accesses of X in the guarded region
+		var exact, needsMore bool
+		n := 0
+		for _, blk := range fn.Blocks {
+			if !edgeDominates(b, arm, blk) {
+				continue
+			}
+			for _, in := range blk.Instrs {
+				switch a := in.(type) {
+				case *ssa.Slice:
+					if a.X != X || a.High == nil {
+						continue
+					}
+					n++
+					h := fb.lin(a.High)
+					facts := fb.blockFacts(blk)
+					if fb.prove(h.add(eLin, -1), facts, 3) && fb.prove(eLin.add(h, -1), facts, 3) {
+						exact = true
+					} else if !fb.prove(eLin.add(h, -1), facts, 3) {
+						// cannot show h <= E: the region may need more than E bytes (then another test must exist); not this pattern
+						needsMore = true
+					}
+				case *ssa.IndexAddr:
+					if a.X != X {
+						continue
+					}
+					n++
+					// X[i] needs i < len: with i == E the strict test is exactly right
+					facts := fb.blockFacts(blk)
+					i := fb.lin(a.Index)
+					if !fb.prove(eLin.add(i, -1).add(linConst(1), -1), facts, 3) {
+						needsMore = true
+					}
+				}
+			}
+		}
+		if n == 0 {
+			continue
+		}
+		examined++
+		if exact && !needsMore {
+			found = append(found, strictFit{fn, ifi, fb.linString(eLin), c.InstrPos(ifi)})
+		}
+	}
+	return
+}
+
+func init() {
+	reg := registry["C12"]
+	reg.Meta.Rules["C12.5"] = "the heap reader accepts an object whose header ends exactly at the end of the collection (no strict `<` where `<=` suffices)"
+	reg.Rules = append(reg.Rules, func(c *Ctx, r *Result) {
+		n := 0
+		for _, name := range []string{"core.ReadGlobalHeapCollection", "core.ParseGlobalHeapReference", "core.GlobalHeapCollection.GetObject"} {
+			fn := c.FnOpt(name)
+			if fn == nil {
+				continue
+			}
+			n++
+			found, ex := c.strictFitGuards(fn)
+			for _, f := range found {
+				r.Viol("C12.5", name+"#strict-fit-test", f.Pos, "the test "+f.E+" < len(data) guards reads that end exactly at "+f.E+": a record that fills the buffer to the last byte is rejected (the writer produces such collections)")
+			}
+			if len(found) == 0 {
+				r.Hold("C12.5", name+"#fit-tests-accept-exact-fit", c.Pos(fn.Pos()), itoa(ex)+" length tests examined; none is stricter than the reads it guards")
+			}
+			// the record loop of ReadGlobalHeapCollection leaves without error only when the next header cannot fit or the data is used up
+			if name == "core.ReadGlobalHeapCollection" {
+				c12loopExit(c, r, fn)
+			}
+		}
+		if n == 0 {
+			r.Errorf("C12.5: global heap reader functions not found")
+		}
+		r.Floor("C12.5", 2)
+	})
+}
+
+// c12loopExit: on every edge that leaves the object loop towards the successful return, offset + 8 > len(data) - i.e. not even
+// the fixed part of an object header (id, refcount, reserved: 8 bytes) fits - or offset + header > len(data) was tested.
+func c12loopExit(c *Ctx, r *Result, fn *ssa.Function) {
+	fb := c.FB(fn)
+	// loop phi `offset`: int phi used as Low of slices of the collection buffer
+	var off *ssa.Phi
+	var data ssa.Value
+	instrs(fn, func(in ssa.Instruction) {
+		sl, ok := in.(*ssa.Slice)
+		if !ok || sl.Low == nil {
+			return
+		}
+		if p, ok := sl.Low.(*ssa.Phi); ok && off == nil {
+			off, data = p, sl.X
+		}
+	})
+	if off == nil {
+		r.Undec("C12.5", c.Name(fn)+"#loop-exit-means-no-room", c.Pos(fn.Pos()), "object loop not recognised")
+		return
+	}
+	hdr := off.Block()
+	inLoop := map[*ssa.BasicBlock]bool{}
+	for _, b := range fn.Blocks {
+		if hdr.Dominates(b) && reachableFrom(b, nil)[hdr] {
+			inLoop[b] = true
+		}
+	}
+	inLoop[hdr] = true
+	lenData := fb.lenOfOperand(data)
+	offLin := fb.lin(off)
+	// header size used by the body: the variable-length payload is read at data[offset+H : offset+H+size]
+	var hBody Lin
+	haveH := false
+	instrs(fn, func(in ssa.Instruction) {
+		sl, ok := in.(*ssa.Slice)
+		if !ok || sl.X != data || sl.Low == nil || sl.High == nil || haveH {
+			return
+		}
+		lo, hi := fb.lin(sl.Low), fb.lin(sl.High)
+		if lo.T[ssa.Value(off)] != 1 {
+			return
+		}
+		if w := hi.add(lo, -1); w.isConst() {
+			return
+		}
+		hBody = lo.add(offLin, -1)
+		haveH = true
+	})
+	okAll, n := true, 0
+	detail := ""
+	for _, b := range sortedBlocks(inLoop) {
+		for _, s := range b.Succs {
+			if inLoop[s] {
+				continue
+			}
+			// error exits are fine
+			if ret, isRet := s.Instrs[len(s.Instrs)-1].(*ssa.Return); isRet && !isSuccessReturn(ret) {
+				continue
+			}
+			n++
+			facts := fb.edgeFacts(b, s)
+			// offset + H > len for the H the code itself compares (any fact of that shape), or offset >= len
+			fits := fb.prove(offLin.add(lenData, -1), facts, 3) // offset >= len
+			if !fits && haveH {
+				// offset + H > len for the header size H the body itself uses to locate the payload
+				fits = fb.prove(offLin.add(hBody, 1).add(lenData, -1).add(linConst(1), -1), facts, 3)
+			}
+			if !fits {
+				okAll = false
+				detail = "leaving the loop at " + c.InstrPos(b.Instrs[len(b.Instrs)-1]) + " does not establish that the next object header cannot fit (offset + header > len): an object ending exactly at the end of the collection is dropped"
+			}
+		}
+	}
+	if n == 0 {
+		r.Undec("C12.5", c.Name(fn)+"#loop-exit-means-no-room", c.Pos(fn.Pos()), "no successful loop exit found")
+		return
+	}
+	if okAll {
+		detail = itoa(n) + " successful loop exit(s), each with offset >= len or offset + header > len"
+	}
+	r.Check(okAll, "C12.5", c.Name(fn)+"#loop-exit-means-no-room", c.Pos(off.Pos()), detail)
 }
